@@ -94,7 +94,9 @@ func (p *pacer) TimeUntilSend() monotime.Time {
 		return 0
 	}
 	diff := 1e9 * uint64(p.maxDatagramSize-p.budgetAtLastSent)
-	bw := p.adjustedBandwidth()
+	// The bandwidth estimate is 0 when the smoothed RTT is absurdly large compared to the congestion
+	// window (cwnd / srtt rounds down to 0 bytes per second). Don't divide by it.
+	bw := max(p.adjustedBandwidth(), 1)
 	// We might need to round up this value.
 	// Otherwise, we might have a budget (slightly) smaller than the datagram size when the timer expires.
 	d := diff / bw
